@@ -57,6 +57,10 @@ fn values_case(rng: &mut Rng, idx: u64, out: &mut Out) {
         wrap_blocks(rng, &mut cfg, 0.4);
     }
     cfg.skipacc = acc;
+    // connections may be added after build(): the skip accumulation is kept as configured; the
+    // loop accumulation concerns nothing here and is set to an arbitrary value
+    cfg.keep_default_accumulations = true;
+    cfg.loopacc = ACCS[((idx / 3) % 5) as usize];
     if cfg.layers.iter().any(|l| matches!(l, LCfg::Feedback { .. })) {
         out.count("networks_with_feedback_blocks_as_possible_sources_or_targets", 1);
     }
@@ -114,6 +118,8 @@ fn bookkeeping_case(rng: &mut Rng, idx: u64, out: &mut Out) {
     let depth = rng.range(3, 6);
     let mut cfg = chain(rng, kind, depth, &acts, (idx / 3) % 2 == 1, true);
     cfg.skipacc = *rng.pick(&[Acc::Add, Acc::Sub, Acc::Mul, Acc::Mean]);
+    cfg.keep_default_accumulations = true;
+    cfg.loopacc = ACCS[((idx / 3) % 5) as usize];
     let cands = candidates(&cfg);
     let params = gen_params(&cfg, rng, -1.0, 1.0).unwrap();
     let x = varied_input(rng, cfg.input);
@@ -233,6 +239,8 @@ fn gradient_case(rng: &mut Rng, idx: u64, out: &mut Out) {
         wrap_blocks(rng, &mut cfg, 0.4);
     }
     cfg.skipacc = Acc::Add;
+    cfg.keep_default_accumulations = true;
+    cfg.loopacc = ACCS[((idx / 3) % 5) as usize];
     let cands = candidates(&cfg);
     let mut skips: Vec<(usize, usize)> = Vec::new();
     for _ in 0..rng.range(1, 3) {
@@ -393,7 +401,7 @@ impl Monitor for C16 {
         vec![("values", tier.pick(90_000, 1_800_000)), ("bookkeeping", tier.pick(45_000, 900_000)), ("gradients", tier.pick(22_500, 450_000))]
     }
     fn rule(&self) -> &'static str {
-        "networks of depth 2..7 in which every layer input has the same element count (flat dense chains, spatial chains of 'same' convolutions / deconvolutions / 1x1 pools / deconvolution+pool pairs, mixed flat<->spatial chains on r*r elements, spatial chains whose shapes differ at equal element count via stride-2 convolutions / deconvolutions; every seventh network has some layers wrapped into feedback blocks so that blocks occur as sources and targets). values: 1..2 connections drawn from ALL index pairs a <= b with equal counts (sources and targets disjoint), accumulation = case index mod 5; predict vs reference network where layer b processes combine(ordinary input, input fed to a) (reshaped row-major), within the running f32 bound. bookkeeping: scripts of 2..4 connect() calls biased towards same-target, same-source and chained pairs; after every call the prediction must equal the reference containing exactly the accepted connections (either reading of 'input fed to a' for chains), a call with a new source and a new target must be accepted, a discarded earlier connection is identified by re-evaluating the reference without it. gradients: additive accumulation (every fifth case adds its last connection only after the network object has run a forward and a backward pass), hooked backward vs dual-number derivative of the MSE of the reference WITH the skips. Distinct = distinct (network, connections | script) descriptors."
+        "networks of depth 2..7 in which every layer input has the same element count (flat dense chains, spatial chains of 'same' convolutions / deconvolutions / 1x1 pools / deconvolution+pool pairs, mixed flat<->spatial chains on r*r elements, spatial chains whose shapes differ at equal element count via stride-2 convolutions / deconvolutions; every seventh network has some layers wrapped into feedback blocks so that blocks occur as sources and targets). values: 1..2 connections drawn from ALL index pairs a <= b with equal counts (sources and targets disjoint), accumulation = case index mod 5; predict vs reference network where layer b processes combine(ordinary input, input fed to a) (reshaped row-major), within the running f32 bound. bookkeeping: scripts of 2..4 connect() calls biased towards same-target, same-source and chained pairs; after every call the prediction must equal the reference containing exactly the accepted connections (either reading of 'input fed to a' for chains), a call with a new source and a new target must be accepted, a discarded earlier connection is identified by re-evaluating the reference without it. gradients: additive accumulation (every fifth case adds its last connection only after the network object has run a forward and a backward pass), hooked backward vs dual-number derivative of the MSE of the reference WITH the skips. The loop accumulation (which concerns nothing in these networks) is set to each of the five values in turn. Distinct = distinct (network, connections | script) descriptors."
     }
     fn assumptions(&self) -> Vec<&'static str> {
         vec!["chained connections (a target that is also a source): both the raw and the accumulated reading of 'the input that was fed to layer a' are accepted", "multiplicative/subtractive/mean/overwrite accumulations are only checked on values (the property claims gradients for additive accumulation only)"]
